@@ -128,3 +128,35 @@ package plumbing
 //gvc:  theory int
 //gvc:  ensures same: same_string(result, r.target)
 //gvc:end
+
+// Property C13: ReferenceName.Validate accepts exactly the names git
+// check-ref-format accepts (spec_refname_ok in /verif/specs/git.gvc, written
+// from git's refs.c), plus "HEAD", minus the documented leading-dash rule.
+// Known finding F21: a component equal to "@" (refs/heads/@) is rejected
+// although git accepts it (git only rejects the whole name "@").
+
+//gvc:func ReferenceName.IsBranch
+//gvc:  props C13
+//gvc:  theory int
+//gvc:  ensures pfx: result == spec_ref_heads(arr(r), off(r), len(r))
+//gvc:end
+
+//gvc:func ReferenceName.IsTag
+//gvc:  props C13
+//gvc:  theory int
+//gvc:  ensures pfx: result == spec_ref_tags(arr(r), off(r), len(r))
+//gvc:end
+
+//gvc:func ReferenceName.Validate
+//gvc:  props C13
+//gvc:  theory int
+//gvc:  opt splitor
+//gvc:  let d = arr(r)
+//gvc:  let p = off(r)
+//gvc:  let n = len(r)
+//gvc:  loop 1 invariant seen: forall(j, 0, it1, spec_ref_comp_ok(d, spec_split_off(d, p, n, j), spec_split_len(d, p, n, j)))
+//gvc:  loop 1 invariant dash: it1 > 2 ==> !spec_ref_dash(d, p, n)
+//gvc:  ensures accept: (result == nil) == spec_refname_ok(d, p, n)
+//gvc:  ensures kind: result != nil ==> is(result, ErrInvalidReferenceName)
+//gvc:  kf F21 accept: exists(i, 0, spec_split_n(d, p, n), spec_split_len(d, p, n, i) == 1 && d[spec_split_off(d, p, n, i)] == '@')
+//gvc:end
